@@ -293,21 +293,40 @@ func (la *LockAnalysis) filterByArgs(site ssa.CallInstruction, cands []*ssa.Func
 	if site.Common().IsInvoke() {
 		args = append([]ssa.Value{site.Common().Value}, args...)
 	}
+	unknown := 0 // interface- or function-typed arguments whose dynamic value is not known to come from outside
 	for _, a := range args {
 		switch x := a.(type) {
 		case *ssa.MakeInterface:
 			if n := namedOf(x.X.Type()); n != nil && n.Obj().Pkg() == la.p.Types {
 				types_[n.Obj().Name()] = true
 			}
+			continue
 		case *ssa.MakeClosure:
 			if fn, ok := x.Fn.(*ssa.Function); ok {
 				fns[fn] = true
 			}
+			continue
 		case *ssa.Function:
 			fns[x] = true
+			continue
+		case *ssa.UnOp:
+			// the value of a variable of another package (crypto/rand.Reader): that package does not import
+			// this one, so what it holds is not one of our types unless this package stores into it
+			if g, ok := x.X.(*ssa.Global); ok && x.Op == token.MUL && g.Pkg != nil && g.Pkg.Pkg != la.p.Types && !la.storesIntoGlobal(g) {
+				continue
+			}
+		case *ssa.Const:
+			continue
+		}
+		switch a.Type().Underlying().(type) {
+		case *types.Interface, *types.Signature:
+			unknown++
 		}
 	}
 	if len(types_) == 0 && len(fns) == 0 {
+		if unknown == 0 {
+			return nil // nothing of this package can be called back through the arguments
+		}
 		return cands
 	}
 	var out []*ssa.Function
@@ -950,6 +969,10 @@ func (la *LockAnalysis) contentWrites(f *ssa.Function, load *ssa.UnOp, fld *type
 							if st, ok := s.(*ssa.Store); ok && st.Addr == y {
 								la.Accesses = append(la.Accesses, Access{Field: fld, Owner: owner, Write: true, Fn: f, Pos: st.Pos(), Held: la.heldAt[st], Fresh: fresh})
 							}
+							// an element read through the loaded slice header (possibly after the lock was dropped)
+							if ld, ok := s.(*ssa.UnOp); ok && ld.Op == token.MUL && ld.X == y {
+								la.Accesses = append(la.Accesses, Access{Field: fld, Owner: owner, Write: false, Fn: f, Pos: ld.Pos(), Held: la.heldAt[ld], Fresh: fresh})
+							}
 						}
 					}
 				}
@@ -975,6 +998,10 @@ func (la *LockAnalysis) contentWrites(f *ssa.Function, load *ssa.UnOp, fld *type
 					case "copy":
 						if len(y.Common().Args) > 0 && y.Common().Args[0] == v {
 							la.Accesses = append(la.Accesses, Access{Field: fld, Owner: owner, Write: true, Fn: f, Pos: y.Pos(), Held: h, Fresh: fresh})
+						}
+						// copying *out of* the container through an alias of its header reads its contents where the copy runs
+						if len(y.Common().Args) > 1 && y.Common().Args[1] == v {
+							la.Accesses = append(la.Accesses, Access{Field: fld, Owner: owner, Write: false, Fn: f, Pos: y.Pos(), Held: h, Fresh: fresh})
 						}
 					}
 					continue
@@ -1385,4 +1412,213 @@ func (la *LockAnalysis) Leaks() []LockLeak {
 		}
 	}
 	return out
+}
+
+// ---------------------------------------------------------------- lock order
+
+// LockOrderEdge: while `From` is held (must-lockset at the site), `To` may be acquired —
+// directly at a Lock/RLock call or somewhere below a call made at the site.
+type LockOrderEdge struct {
+	From, To string
+	Fn       *ssa.Function
+	Pos      token.Pos
+	Via      string // callee through which To is acquired ("" for a direct Lock)
+}
+
+func lockBase(c string) string { return strings.TrimSuffix(c, "(R)") }
+
+// mayAcquire: the lock classes f may acquire, transitively through synchronous calls (not `go`).
+func (la *LockAnalysis) mayAcquire() map[*ssa.Function]map[string]bool {
+	acq := map[*ssa.Function]map[string]bool{}
+	targetsOf := func(f *ssa.Function, site ssa.CallInstruction) []*ssa.Function {
+		var targets []*ssa.Function
+		for _, c := range la.calleesOf(f, site) {
+			if la.p.InPkg(c) {
+				targets = append(targets, c)
+			} else {
+				targets = append(targets, la.filterByArgs(site, la.throughExternal(c))...)
+			}
+		}
+		return targets
+	}
+	for _, f := range la.funcs {
+		acq[f] = map[string]bool{}
+		for _, b := range f.Blocks {
+			for _, instr := range b.Instrs {
+				call, ok := instr.(ssa.CallInstruction)
+				if !ok {
+					continue
+				}
+				cal := call.Common().StaticCallee()
+				if cal == nil || cal.Signature.Recv() == nil || len(call.Common().Args) == 0 {
+					continue
+				}
+				rt := cal.Signature.Recv().Type().String()
+				if (rt == "*sync.Mutex" || rt == "*sync.RWMutex") && (cal.Name() == "Lock" || cal.Name() == "RLock") {
+					acq[f][lockBase(lockClassOf(call.Common().Args[0]))] = true
+				}
+			}
+		}
+	}
+	for changed := true; changed; {
+		changed = false
+		for _, f := range la.funcs {
+			for _, b := range f.Blocks {
+				for _, instr := range b.Instrs {
+					site, ok := instr.(ssa.CallInstruction)
+					if !ok {
+						continue
+					}
+					if _, isGo := site.(*ssa.Go); isGo {
+						continue
+					}
+					for _, c := range targetsOf(f, site) {
+						for k := range acq[c] {
+							if !acq[f][k] {
+								acq[f][k] = true
+								changed = true
+							}
+						}
+					}
+				}
+			}
+		}
+	}
+	return acq
+}
+
+// LockOrder lists the order edges between distinct lock classes.
+func (la *LockAnalysis) LockOrder() []LockOrderEdge {
+	acq := la.mayAcquire()
+	var out []LockOrderEdge
+	seen := map[string]bool{}
+	add := func(e LockOrderEdge) {
+		if e.From == e.To || e.From == "?" || e.To == "?" {
+			return
+		}
+		k := e.From + ">" + e.To
+		if seen[k] {
+			return
+		}
+		seen[k] = true
+		out = append(out, e)
+	}
+	for _, f := range la.funcs {
+		if _, ok := la.entry[f]; !ok {
+			continue
+		}
+		for _, b := range f.Blocks {
+			for _, instr := range b.Instrs {
+				site, ok := instr.(ssa.CallInstruction)
+				if !ok {
+					continue
+				}
+				if _, isGo := site.(*ssa.Go); isGo {
+					continue
+				}
+				h := la.heldAt[instr]
+				if d, isDefer := site.(*ssa.Defer); isDefer {
+					h = la.heldAtDeferred(f, d)
+				}
+				if len(h) == 0 {
+					continue
+				}
+				cal := site.Common().StaticCallee()
+				if cal != nil && cal.Signature.Recv() != nil && len(site.Common().Args) > 0 {
+					rt := cal.Signature.Recv().Type().String()
+					if rt == "*sync.Mutex" || rt == "*sync.RWMutex" {
+						if cal.Name() == "Lock" || cal.Name() == "RLock" {
+							to := lockBase(lockClassOf(site.Common().Args[0]))
+							for hc := range h {
+								add(LockOrderEdge{From: lockBase(hc), To: to, Fn: f, Pos: instr.Pos()})
+							}
+						}
+						continue
+					}
+				}
+				for _, c := range la.calleesOf(f, site) {
+					var targets []*ssa.Function
+					if la.p.InPkg(c) {
+						targets = append(targets, c)
+					} else {
+						targets = append(targets, la.filterByArgs(site, la.throughExternal(c))...)
+					}
+					for _, t := range targets {
+						for to := range acq[t] {
+							for hc := range h {
+								add(LockOrderEdge{From: lockBase(hc), To: to, Fn: f, Pos: instr.Pos(), Via: t.String()})
+							}
+						}
+					}
+				}
+			}
+		}
+	}
+	sort.Slice(out, func(i, j int) bool {
+		if out[i].From != out[j].From {
+			return out[i].From < out[j].From
+		}
+		return out[i].To < out[j].To
+	})
+	return out
+}
+
+// checkLockOrder: the order relation between lock classes is acyclic; one obligation per edge
+// (an edge on a cycle is a violation: two goroutines taking the two locks in opposite orders block each other for good).
+func checkLockOrder(p *Prog, r *Report, rule string) {
+	la := p.Locks()
+	edges := la.LockOrder()
+	succ := map[string][]string{}
+	for _, e := range edges {
+		succ[e.From] = append(succ[e.From], e.To)
+	}
+	reach := func(from, to string) bool {
+		seen := map[string]bool{}
+		var dfs func(x string) bool
+		dfs = func(x string) bool {
+			if x == to {
+				return true
+			}
+			if seen[x] {
+				return false
+			}
+			seen[x] = true
+			for _, y := range succ[x] {
+				if dfs(y) {
+					return true
+				}
+			}
+			return false
+		}
+		return dfs(from)
+	}
+	for _, e := range edges {
+		construct := "lock order " + e.From + " -> " + e.To
+		via := ""
+		if e.Via != "" {
+			via = " (through " + e.Via + ")"
+		}
+		if reach(e.To, e.From) {
+			r.bad(rule, e.Fn.String(), p.PosOf(e.Pos), construct, "while "+e.From+" is held, "+e.To+" is acquired"+via+", and elsewhere "+e.To+" is held while "+e.From+" is acquired: two goroutines taking them in opposite orders block each other for good (with a read lock too: a waiting writer blocks new readers) — every caller blocked on either lock never wakes", "")
+		} else {
+			r.ok(rule, e.Fn.String(), p.PosOf(e.Pos), construct, "no opposite order anywhere"+via)
+		}
+	}
+	if len(edges) == 0 {
+		r.ok(rule, "package", "-", "lock order", "no lock is acquired while another is held")
+	}
+}
+
+// storesIntoGlobal: some function of the package stores into the (external) global g.
+func (la *LockAnalysis) storesIntoGlobal(g *ssa.Global) bool {
+	for _, f := range la.funcs {
+		for _, b := range f.Blocks {
+			for _, in := range b.Instrs {
+				if st, ok := in.(*ssa.Store); ok && st.Addr == ssa.Value(g) {
+					return true
+				}
+			}
+		}
+	}
+	return false
 }
